@@ -19,6 +19,7 @@ func init() {
 			{"COMPARE-TABLES", ruleCompareTables},
 			{"PANIC-ACCESSOR", rulePanicAccessor},
 			{"LIMIT-TABLE", ruleLimitTable},
+			{"INDEX-GUARD", func(c *eng.Ctx) { ruleIndexGuard(c, "INDEX-GUARD", []string{"internal/planner"}, 5) }},
 		},
 		Meta: eng.PropMeta{
 			Explanation: "Decides four structural clauses of the query semantics: (SORT-TABLE) the decision table of valuesNode.docValueLess over sign(compare) x direction is 'ASC: <0 true, >0 false, =0 next key; DESC mirrored; after the last key false' (6 cells, exhaustive); (COMPARE-TABLES) each base.compareX helper realises an antisymmetric three-way comparison on the 3 orderings of its operands; (PANIC-ACCESSOR) in dagScanNode every panicking mapping accessor (SetFirstOfName/FirstOfName/FirstIndexOfName/IndexesByName[k][0]) is used with a name the mapper registers unconditionally for that mapping, or is guarded by a presence test; (LIMIT-TABLE) limitNode.Next's stop test is 'limit!=0 && rowIndex >= limit+offset' and its skip test 'rowIndex > offset' as linear forms.",
